@@ -20,7 +20,7 @@ struct Plan : sim::PlanBase {
   int fmt = 0;             // 0 LAMMPS dump, 1 gro
   int variant = 0;         // tool specific option bits
   int block = 0;           // block length (csg_stat)
-  int vol_jitter = 0;      // 1: the box volume differs from frame to frame
+  int vol_jitter = 0;      // 1: the box volume differs from frame to frame; 2: it changes every second or third frame only
   int lattice = 0;         // 1: single-bead molecules on distinct sites of four lines with spacing 0.25 nm in a 2.0 nm box, GRO format:
                            //    every pair distance inside the cut-off is exactly 0.25 or 0.5, all per-frame sums are exact in floating point
   long sparse_mask = 0;    // bit f set: frame f+1 places the molecules on a lattice wider than any cut-off (no inter-molecular pair)
